@@ -303,6 +303,9 @@ fn c06_cfg(ctx: &Ctx) -> CaseCfg {
       recovery: true,
       unbounded: true,
       sched_default: true,
+      // publish().ref_count() / replay().ref_count(): the shared connection ends with its
+      // last subscriber, so the sources below it are told as well
+      connectable: true,
       exclude,
       ..GenCfg::default()
     },
